@@ -327,6 +327,8 @@ pub struct World {
     /// Successful decrease of the current step: (collateral is long token, output token != secondary
     /// token, fee cost excluding funding as reported).
     pub last_dec: Option<(bool, bool, BigInt)>,
+    /// Report of the successful decrease of the current step (formatted lazily for witnesses).
+    pub last_report: Option<DecReport>,
     prev_idx: [T; 8],
     prev_bf: [T; 2],
 }
@@ -390,6 +392,7 @@ impl World {
             step: 0,
             last_op: Value::Null,
             last_dec: None,
+            last_report: None,
             prev_idx: [0; 8],
             prev_bf: [0; 2],
         };
@@ -412,6 +415,7 @@ impl World {
             "world": self.world_idx,
             "step": self.step,
             "last_operation": self.last_op,
+            "last_decrease_report": self.last_report.as_ref().map(|r| format!("{r:?}")),
             "config_class": self.info.class,
             "config_notes": self.info.notes,
             "prices": prices_json(&self.prices),
@@ -733,7 +737,7 @@ impl World {
         let res = do_decrease(&mut self.market, &mut self.positions[i], prices, a);
         match res {
             Ok(rep) => {
-                self.last_op["report"] = json!(format!("{rep:?}"));
+                self.last_report = Some(rep.clone());
                 cx.count("op_decrease_ok");
                 cx.count(&format!("decrease_{kind}_ok"));
                 let events = self.take_events();
